@@ -457,6 +457,19 @@ class RunTaskHandler(StabilizeHandler[RunTask]):
                 logger.error("Task %s not found in stage %s", task_id, stage_id)
                 return
 
+            # The stage was reloaded after the task ran: a CancelStage or a jump
+            # re-arm may have been committed meanwhile. A result is only recorded
+            # for a task that is still RUNNING (as CompleteTask does); otherwise
+            # the redirect/suspend branches would overwrite a CANCELED or
+            # re-armed task (CANCELED -> REDIRECT) and queue a jump for it.
+            if task_model.status != WorkflowStatus.RUNNING:
+                logger.info(
+                    "Dropping result of task %s: task is %s, no longer RUNNING",
+                    task_model.name,
+                    task_model.status,
+                )
+                return
+
             process_result(
                 stage,
                 task_model,
